@@ -482,8 +482,9 @@ def _roles(rows):
     return cellv, colv, startv
 
 
-def rule_split_init(rep: Report, rid="C04.cells") -> None:
+def rule_split_init(rep: Report, rid="C04.cells", rid_trim=None) -> None:
     """Initial splitter state and the column formula of table_cells."""
+    rid_trim = rid_trim or (rid.split(".")[0] + ".trim")
     I = new_interp()
     q = N.SPLITTER_Q
     fi = I.facts.func(q)
@@ -553,13 +554,13 @@ def rule_split_init(rep: Report, rid="C04.cells") -> None:
                 ok_r = regexnf.same(text[2][0][1], f2, r"[^\S\n]*\Z", re.U)
                 ok_t = ok_l and ok_r
                 l = inner
-                rep.ob("C12.trim", "leading blanks (whitespace except line feed) are removed from a cell", ok_l, **kw2, expected=regexnf.describe(r"^[^\S\n]*", re.U),
+                rep.ob(rid_trim, "leading blanks (whitespace except line feed) are removed from a cell", ok_l, **kw2, expected=regexnf.describe(r"^[^\S\n]*", re.U),
                        found=regexnf.describe(inner[2][0][1], f1))
-                rep.ob("C12.trim", "trailing blanks (whitespace except line feed) are removed at the very end of a cell only (a line feed at the end, and blanks before it, stay)",
+                rep.ob(rid_trim, "trailing blanks (whitespace except line feed) are removed at the very end of a cell only (a line feed at the end, and blanks before it, stay)",
                        ok_r, **kw2, expected=regexnf.describe(r"[^\S\n]*\Z", re.U),
                        found=regexnf.describe(text[2][0][1], f2))
         if l is None:
-            rep.ob("C12.trim", "cell text = split cell with blanks (not line feeds) trimmed at both ends, after unescaping", False, **kw2,
+            rep.ob(rid_trim, "cell text = split cell with blanks (not line feeds) trimmed at both ends, after unescaping", False, **kw2,
                    expected="re.sub('[^\\S\\n]*$', '', re.sub('^[^\\S\\n]*', '', cell))", found=fmt(text, I))
             continue
         want = ("binop", "Add", ("binop", "Add", col, ("attr", selft, N.INDENT)), ("binop", "Sub", ("call", "len", (cell,), ()), ("call", "len", (l,), ())))
@@ -608,6 +609,17 @@ def rule_scanner(rep: Report, rid_line="C04.line", rid_scan="C18.scan") -> None:
     ok_sio = io_t is not None and any(sio_ok(a) for a in alts(io_t)) and all(sio_ok(a) or (a is not None and a[0] == "call" and a[1] == "open") for a in alts(io_t))
     rep.ob(rid_scan, "source text is read through io.StringIO(text) with default newline handling (lines end at line feeds only; lone CR is not a line break)", ok_sio, **kw,
            expected="io.StringIO(path_or_str)", found=fmt(io_t, I) if io_t else None)
+    # a path is opened as plain UTF-8 text: the same characters a caller would get by reading the file and passing the text
+    # (no byte-order-mark stripping, no error replacement, no other encoding)
+    for a in alts(io_t) if io_t is not None else []:
+        if a is not None and a[0] == "call" and a[1] == "open":
+            kws = dict(a[3] or ())
+            enc = kws.get("encoding")
+            mode = a[2][1] if len(a[2]) > 1 else kws.get("mode")
+            ok_open = a[2][:1] == (srcp,) and enc is not None and is_const(enc) and str(enc[1]).lower().replace("-", "").replace("_", "") == "utf8" \
+                and (mode is None or (is_const(mode) and mode[1] in ("r", "rt"))) and set(kws) <= {"encoding", "mode"}
+            rep.ob(rid_scan, "a source file is opened as plain UTF-8 text (same characters as the file's text passed as a string)", ok_open, **kw,
+                   expected="open(path, encoding='utf8')", found=fmt(a, I))
     I, fi, tree, rv, st = _run(f"{SQ}.read")
     rep.used_function(fi.qualname)
     selft = ("param", fi.params()[0])
